@@ -213,7 +213,18 @@ func variants(r *vh.Rand, k string) []byte {
 	if r.Chance(2, 5) {
 		return []byte(k)
 	}
-	switch r.Intn(16) {
+	switch r.Intn(20) {
+	case 16:
+		return []byte(k + ":" + []string{"admin", "", "8080", k}[r.Intn(4)]) // colon-separated extension of a configured key
+	case 17:
+		return []byte(":" + k)
+	case 18:
+		return []byte(k + "/" + k)
+	case 19:
+		if i := strings.IndexAny(k, ":/.-"); i > 0 {
+			return []byte(k[:i]) // first segment of a structured key
+		}
+		return []byte(k + ".")
 	case 0:
 		return []byte(strings.ToUpper(k))
 	case 1:
@@ -308,6 +319,9 @@ func witnesses() []Scenario {
 			{"dispatch", b("forward:WEB")}, {"dispatch", b("forward:web\x00")}, {"dispatch", b("forward:")}, {"dispatch", b("Forward:web")},
 			{"dispatch", b("forward")}, {"dispatch", b("web")}, {"direct", b("web")}, {"direct", b("")}, {"direct", b("forward:web")},
 			{"direct", b(strings.Repeat("a", 255))}, {"dispatch", b("forward:forward:web")}}},
+		{Name: "w-colon-suffixed-key-is-unknown", Endpoints: []Endpoint{{b("web"), 0}, {b("db"), 1}, {b("a:b"), 2}}, Requests: []Request{
+			{"dispatch", b("forward:web:admin")}, {"dispatch", b("forward:web:")}, {"dispatch", b("forward:web:8080")}, {"dispatch", b("forward::web")},
+			{"dispatch", b("forward:a:b")}, {"dispatch", b("forward:a")}, {"dispatch", b("forward:a:b:c")}, {"direct", b("web:admin")}, {"direct", b("a:b")}, {"direct", b("a")}}},
 		{Name: "w-duplicate-key-last-wins", Endpoints: []Endpoint{{b("web"), 0}, {b("web"), 1}, {b("Web"), 2}}, Requests: []Request{
 			{"dispatch", b("forward:web")}, {"direct", b("web")}, {"direct", b("Web")}, {"direct", b("WEB")}}},
 		{Name: "w-no-endpoints", Requests: []Request{{"dispatch", b("forward:web")}, {"dispatch", b("forward:")}, {"direct", b("web")}}},
